@@ -102,6 +102,12 @@ func (e *Enc) verifyFunction(fn *ssa.Function, con *Contract) {
 	}
 	e.cover(name+"/cover.return", tTrue)
 	env = e.topEnv(fn, con, params, rets, e.cur, entry)
+	// postconditions may also mention the function's top-level local variables
+	// (their values at the return) and, for closures, the captured variables
+	if s := fn.Syntax(); s != nil && e.lastFrame != nil {
+		ce := e.cellEnv(e.lastFrame, s.End()-1, e.cur)
+		env.resolve = ce.resolve
+	}
 	e.evalLets(env, con)
 	var pos token.Pos
 	if s := fn.Syntax(); s != nil {
